@@ -2,6 +2,7 @@ package main
 
 import (
 	"berty.tech/go-orbit-db/address"
+	"berty.tech/go-orbit-db/stores/basestore"
 	"context"
 	"encoding/hex"
 	"encoding/json"
@@ -39,6 +40,9 @@ type AuthInput struct {
 }
 
 type authEnv struct {
+	viaSnapshot      bool   // restartReplica saves a snapshot before stopping and loads it after starting
+	snapErr          error  // error of LoadFromSnapshot in the last restartReplica
+	linkByRefs       bool   // the colluding head reaches the hostile entry through refs instead of next
 	decoy            string // address of another database the replica opens first with the same options value ("" = fresh options)
 	w                *sim.World
 	w1, w2, r, x     *sim.Node
@@ -183,6 +187,13 @@ func (a *authEnv) listed(n *sim.Node) bool {
 // reopens the database and loads it.
 func (a *authEnv) restartReplica() error {
 	p := a.r.P
+	snap := false
+	if a.viaSnapshot {
+		// the state comes back through a snapshot instead of the cached heads
+		if _, err := basestore.SaveSnapshot(context.Background(), a.rr.S); err == nil {
+			snap = true
+		}
+	}
 	if err := a.r.Close(); err != nil {
 		return err
 	}
@@ -193,6 +204,11 @@ func (a *authEnv) restartReplica() error {
 	a.r = n
 	if a.rr, err = a.openReplica(n); err != nil {
 		return err
+	}
+	if snap {
+		// a snapshot that was saved without error and cannot be loaded is an observation, not a failure of the driver
+		a.snapErr = a.rr.S.LoadFromSnapshot(context.Background())
+		return nil
 	}
 	return a.rr.S.Load(context.Background(), -1)
 }
@@ -345,6 +361,10 @@ func (a *authEnv) forge(ctx context.Context, class string, base ipfslog.Entry) (
 	case "nonwriter":
 		e, err := mkEntry(ctx, a.x, a.x.DB.Identity(), a.addr, payload, next, t)
 		return e, key, a.listed(a.x), err
+	case "nonwriter-other-log":
+		// properly signed by the non-writer, under a log id that is not this database's
+		e, err := mkEntry(ctx, a.x, a.x.DB.Identity(), a.addr+"-shadow", payload, next, t)
+		return e, key, false, err
 	case "copied-id", "foreign-type":
 		typ := "orbitdb"
 		if class == "foreign-type" {
@@ -410,6 +430,18 @@ func (a *authEnv) deliver(ctx context.Context, route string, e *entry.Entry) err
 		if err != nil {
 			return err
 		}
+		if a.linkByRefs {
+			// the hostile entry is referenced (refs), not linked (next): fetchers follow both, head computations only next
+			head.Next = append([]cid.Cid{}, e.GetNext()...)
+			head.Refs = []cid.Cid{e.GetHash()}
+			id := a.w2.DB.Identity()
+			signed, err := entry.CreateEntry(ctx, a.w2.P.IPFS(), id, &entry.Entry{LogID: a.addr, Payload: head.Payload, Next: head.Next, Refs: head.Refs,
+				Clock: entry.NewLamportClock(id.PublicKey, head.GetClock().GetTime())}, nil)
+			if err != nil {
+				return err
+			}
+			head = signed.(*entry.Entry)
+		}
 		a.w.Deliver(&sim.Msg{Kind: "pub", Topic: a.addr, From: a.w2.P.Name, To: a.r.P.Name, Payload: headsMsg(a.addr, head)})
 	}
 	return nil
@@ -446,6 +478,9 @@ func authCmd(args []string) int {
 					}
 					authReuseOptions = (n%2 == 1) != in.FlipReuse
 					a, err := newAuthEnv(fmt.Sprintf("c%d", n), list, stype)
+					if a != nil {
+						a.linkByRefs = n%3 == 0
+					}
 					if err != nil {
 						res.Inconclusive = append(res.Inconclusive, bid+": setup: "+err.Error())
 						continue
@@ -575,10 +610,15 @@ func authCmd(args []string) int {
 							}
 						}
 						_ = before
-						// the same after the replica has been stopped and started again from its directory
+						// the same after the replica has been stopped and started again, its state coming back through a snapshot
 						if hostile != nil && !admitted {
+							a.viaSnapshot = true
 							if err := a.restartReplica(); err != nil {
 								res.Inconclusive = append(res.Inconclusive, bid+": restart: "+err.Error())
+								return
+							}
+							if a.snapErr != nil {
+								viol("honest-lost", fmt.Sprintf("after a hostile delivery (class %s, route %s) the replica saved a snapshot without error and cannot load it: %v", class, route, a.snapErr), nil, nil)
 								return
 							}
 							if err := a.settle(); err != nil {
@@ -700,6 +740,9 @@ func runTamper(in *AuthInput, res *Result) {
 				}
 				authReuseOptions = (n%2 == 1) != in.FlipReuse
 				a, err := newAuthEnv(fmt.Sprintf("t%d", n), "explicit", stype)
+				if a != nil {
+					a.linkByRefs = n%3 == 0
+				}
 				if err != nil {
 					res.Inconclusive = append(res.Inconclusive, bid+": setup: "+err.Error())
 					continue
@@ -836,6 +879,10 @@ func runTamper(in *AuthInput, res *Result) {
 						if err := a.restartReplica(); err != nil {
 							return "restart: " + err.Error()
 						}
+						if a.viaSnapshot && a.snapErr != nil {
+							viol("honest-lost", fmt.Sprintf("after the hostile delivery (%s mutated, delivered as %s) the replica saved a snapshot without error and cannot load it: %v", field, pos, a.snapErr))
+							return ""
+						}
 						if err := a.settle(); err != nil {
 							return err.Error()
 						}
@@ -904,6 +951,7 @@ func runTamper(in *AuthInput, res *Result) {
 					if !visible(a.rr, stype, "victim") {
 						viol("honest-lost", "the genuine entry is not accepted after its tampered copy was delivered")
 					}
+					a.viaSnapshot = true
 					if msg := restartCheck([]string{"honest-1", "victim"}); msg != "" {
 						res.Inconclusive = append(res.Inconclusive, bid+": "+msg)
 						return
